@@ -9,14 +9,20 @@
 //! link, number of events the supervisor has received, `post_stop` flag.
 //!
 //! ops.txt / impl.txt:
-//!   `case <cause> <n> <d>`  | `ok <fields> at=<exiter point>`        cause = stop|kill|drain|panic|stoppanic; d drainers
+//!   `case <cause> <n> <d> [forms=k,…]` | `ok <fields> at=<exiter point>`   cause = stop|kill|drain|panic|stoppanic; d drainers;
+//!                            k = wait|waitT|stop|stopT|kill|killT|drain|drainT|join: the call waiter i makes
+//!                            (`wait(None)`, `wait(Some t)`, `stop_and_wait(None, None|Some t)`, `kill_and_wait`,
+//!                            `drain_and_wait`, the `Actor::spawn` join handle), default `wait`
 //!   `step d<i> drain.status`| `<fields> at=done`                      a late `drain()`'s status update
 //!   `succ`                  | `<fields> at=ok|refused`                a successor registers the freed name
 //!   `step e <point>`        | `<fields> at=<next|done>`
-//!   `step w<i> <point>`     | `<fields> at=<next|done>[ ret]`
+//!   `step w<i> <point>`     | `<fields> at=<next|done>[ ret| ret=<ok|err|timeout>]`   (point may be `drain.status`
+//!                            for a `drain_and_wait` caller: its own `drain()`)
+//!   `timeout <i>`           | `<fields> at=done ret=<ok|timeout>`     the timer of a timed call fires (paused clock advanced)
 //!   `abandon <i>`           | `<fields> at=done`
 //!   `end <cause> <n> <sig>` | `<fields> waiters=<r|a|p,…>`            r returned, a abandoned, p still pending
-//! fields = `st=<u8> name=<0|1> succ=<0|1> pid=<0|1> pg=<0|1> mon=<0|1> kids=<n> link=<0|1> sup=<k> post=<0|1>`
+//! fields = `st=<u8> name=<0|1> succ=<0|1> pid=<0|1> pg=<0|1> mon=<0|1> kids=<n> link=<0|1> sup=<k> post=<0|1> sp=<0|1> kp=<0|1>`
+//!          (sp / kp: `verif_ports_open()` — would a `stop()` / `kill()` issued now be accepted)
 //!
 //!   `xstress <i> cause= n=` | `w=<kind:result:st:name:pid:pg:mon:kids:link:post,…> sup=<events> st=<final>`
 //!                            (free-running tasks on a multi-threaded runtime; oracle only)
@@ -134,6 +140,48 @@ enum Choice {
     D(usize),
     /// a successor actor registers the (freed) name
     Succ,
+    /// the timer of timed caller `i` fires
+    Timeout(usize),
+}
+
+/// which call a waiter thread makes
+#[derive(Clone, Copy, Debug, PartialEq)]
+enum WKind {
+    Wait,
+    WaitT,
+    StopWait,
+    StopWaitT,
+    KillWait,
+    KillWaitT,
+    DrainWait,
+    DrainWaitT,
+    Join,
+}
+impl WKind {
+    const ALL: [WKind; 9] =
+        [WKind::Wait, WKind::WaitT, WKind::StopWait, WKind::StopWaitT, WKind::KillWait, WKind::KillWaitT, WKind::DrainWait, WKind::DrainWaitT, WKind::Join];
+    fn name(self) -> &'static str {
+        match self {
+            WKind::Wait => "wait",
+            WKind::WaitT => "waitT",
+            WKind::StopWait => "stop",
+            WKind::StopWaitT => "stopT",
+            WKind::KillWait => "kill",
+            WKind::KillWaitT => "killT",
+            WKind::DrainWait => "drain",
+            WKind::DrainWaitT => "drainT",
+            WKind::Join => "join",
+        }
+    }
+    fn parse(s: &str) -> WKind {
+        *WKind::ALL.iter().find(|k| k.name() == s).unwrap_or_else(|| panic!("unknown wait form {s}"))
+    }
+    fn timed(self) -> bool {
+        matches!(self, WKind::WaitT | WKind::StopWaitT | WKind::KillWaitT | WKind::DrainWaitT)
+    }
+    fn kills(self) -> bool {
+        matches!(self, WKind::KillWait | WKind::KillWaitT)
+    }
 }
 
 /// points that are steps of the model; every other point (tree.*, reg.*, pg.*, admission points)
@@ -181,6 +229,8 @@ struct View<'a> {
     drainers: &'a [usize],
     /// the name is free and no successor has been started yet
     succ_possible: bool,
+    /// timed callers whose timer may fire now (registered, parked at `wait.poll`)
+    timeable: &'a [usize],
     steps: usize,
 }
 
@@ -205,7 +255,8 @@ fn at(p: &ThreadPhase) -> &'static str {
     }
 }
 
-fn run_case(env: &mut Env, cause: &str, n: usize, ndrain: usize, collapse_pre: bool, choose: &mut dyn FnMut(&View) -> Choice) {
+fn run_case(env: &mut Env, cause: &str, kinds: &[WKind], ndrain: usize, collapse_pre: bool, choose: &mut dyn FnMut(&View) -> Choice) {
+    let n = kinds.len();
     let case_no = CASE_NO.fetch_add(1, Ordering::SeqCst);
     let t0 = std::time::Instant::now();
     let prof = std::env::var("PROF").is_ok();
@@ -220,7 +271,7 @@ fn run_case(env: &mut Env, cause: &str, n: usize, ndrain: usize, collapse_pre: b
 
     // the exiter thread owns the runtime that polls the target actor's task
     let ectl = ThreadCtl::new();
-    let (tx_cell, rx_cell) = mpsc::channel::<ActorRef<TMsg>>();
+    let (tx_cell, rx_cell) = mpsc::channel::<(ActorRef<TMsg>, tokio::task::JoinHandle<()>)>();
     let (tx_go, rx_go) = mpsc::channel::<()>();
     let unsupervised = cause == "stoppanic";
     let exiter = {
@@ -240,17 +291,23 @@ fn run_case(env: &mut Env, cause: &str, n: usize, ndrain: usize, collapse_pre: b
                 }
                 (a, h)
             });
-            tx_cell.send(aref).unwrap();
+            // the join handle goes to the controller (a `join` waiter polls it by hand); this thread
+            // drives the runtime until the actor's task has completed
+            let finished = handle.abort_handle();
+            tx_cell.send((aref, handle)).unwrap();
             rx_go.recv().unwrap();
             verif::thread_register(ectl.clone());
             rt.block_on(async {
-                let _ = handle.await;
+                while !finished.is_finished() {
+                    tokio::task::yield_now().await;
+                }
             });
             verif::thread_unregister();
             ectl.finish();
         })
     };
-    let aref = rx_cell.recv().expect("target actor");
+    let (aref, join_handle) = rx_cell.recv().expect("target actor");
+    let mut join_handle = Some(join_handle);
     if prof { eprintln!("spawned {:?}", t0.elapsed()); }
     let cell: ActorCell = aref.get_cell();
     let id = cell.get_id();
@@ -264,37 +321,84 @@ fn run_case(env: &mut Env, cause: &str, n: usize, ndrain: usize, collapse_pre: b
     let mut wctls = Vec::new();
     let mut wjoins = Vec::new();
     let mut abandon_flags = Vec::new();
+    let mut fire_flags = Vec::new();
     let results: Arc<Mutex<Vec<Option<&'static str>>>> = Arc::new(Mutex::new(vec![None; n]));
     for i in 0..n {
         let ctl = ThreadCtl::new();
         let flag = Arc::new(AtomicBool::new(false));
+        let fire = Arc::new(AtomicBool::new(false));
         let c2 = ctl.clone();
         let f2 = flag.clone();
+        let fire2 = fire.clone();
         let cell2 = cell.clone();
         let res = results.clone();
+        let kind = kinds[i];
+        let jh = if kind == WKind::Join { Some(join_handle.take().expect("only one join-handle waiter per case")) } else { None };
         wjoins.push(std::thread::spawn(move || {
             verif::thread_register(c2.clone());
-            let mut fut: Pin<Box<dyn Future<Output = ()> + Send>> = Box::pin(async move {
-                let _ = cell2.wait(None).await;
-            });
+            // a timed call needs a timer: an own paused runtime, entered but never run — the call's
+            // future is polled by hand; the clock moves only when the controller fires the timer
+            let rt = if kind.timed() {
+                Some(tokio::runtime::Builder::new_current_thread().enable_time().start_paused(true).build().expect("waiter runtime"))
+            } else {
+                None
+            };
+            let guard = rt.as_ref().map(|r| r.enter());
+            let to = if kind.timed() { Some(Duration::from_secs(1)) } else { None };
+            fn res3<T>(r: Result<(), ractor::RactorErr<T>>) -> &'static str {
+                match r {
+                    Ok(()) => "r",
+                    Err(ractor::RactorErr::Timeout) => "t",
+                    Err(_) => "e",
+                }
+            }
+            let mut fut: Pin<Box<dyn Future<Output = &'static str>>> = match kind {
+                WKind::Wait | WKind::WaitT => Box::pin(async move {
+                    match cell2.wait(to).await {
+                        Ok(()) => "r",
+                        Err(_) => "t",
+                    }
+                }),
+                WKind::StopWait | WKind::StopWaitT => Box::pin(async move { res3(cell2.stop_and_wait(None, to).await) }),
+                WKind::KillWait | WKind::KillWaitT => Box::pin(async move { res3(cell2.kill_and_wait(to).await) }),
+                WKind::DrainWait | WKind::DrainWaitT => Box::pin(async move { res3(cell2.drain_and_wait(to).await) }),
+                WKind::Join => {
+                    let h = jh.expect("join handle");
+                    Box::pin(async move {
+                        match h.await {
+                            Ok(()) => "r",
+                            Err(_) => "e",
+                        }
+                    })
+                }
+            };
             let mut cx = Context::from_waker(Waker::noop());
             let r = loop {
                 verif::point("wait.poll");
                 if f2.load(Ordering::SeqCst) {
                     break "a";
                 }
-                if let Poll::Ready(()) = fut.as_mut().poll(&mut cx) {
-                    break "r";
+                if fire2.swap(false, Ordering::SeqCst) {
+                    // the timer fires: advance the paused clock past the deadline; the next poll of the
+                    // `Timeout` future polls the inner future once more and then the elapsed `Sleep`
+                    rt.as_ref().expect("timed waiter").block_on(async { tokio::time::advance(Duration::from_secs(5)).await });
+                }
+                if let Poll::Ready(r) = fut.as_mut().poll(&mut cx) {
+                    break r;
                 }
             };
             drop(fut);
+            drop(guard);
+            drop(rt);
             res.lock().unwrap()[i] = Some(r);
             verif::thread_unregister();
             c2.finish();
         }));
         wctls.push(ctl);
         abandon_flags.push(flag);
+        fire_flags.push(fire);
     }
+    drop(join_handle);
     if prof { eprintln!("setup {:?}", t0.elapsed()); }
     let mut successor: Option<ActorRef<Unit>> = None;
     let mut wph: Vec<ThreadPhase> = wctls.iter().map(wait_model_point).collect();
@@ -303,8 +407,9 @@ fn run_case(env: &mut Env, cause: &str, n: usize, ndrain: usize, collapse_pre: b
     let fields = |env: &Env| -> String {
         quiesce(&env.crt);
         let ev = events.lock().unwrap();
+        let (sp, kp) = cell.verif_ports_open();
         format!(
-            "st={} name={} succ={} pid={} pg={} mon={} kids={} link={} sup={} post={}",
+            "st={} name={} succ={} pid={} pg={} mon={} kids={} link={} sup={} post={} sp={} kp={}",
             cell.get_status() as u8,
             (ractor::registry::where_is(name.clone()).map(|c| c.get_id()) == Some(id)) as u8,
             ractor::registry::where_is(name.clone()).is_some_and(|c| c.get_id() != id) as u8,
@@ -314,7 +419,9 @@ fn run_case(env: &mut Env, cause: &str, n: usize, ndrain: usize, collapse_pre: b
             cell.verif_num_children(),
             cell.try_get_supervisor().is_some() as u8,
             ev.len(),
-            post.load(Ordering::SeqCst) as u8
+            post.load(Ordering::SeqCst) as u8,
+            sp as u8,
+            kp as u8
         )
     };
 
@@ -351,9 +458,25 @@ fn run_case(env: &mut Env, cause: &str, n: usize, ndrain: usize, collapse_pre: b
     let mut dph: Vec<ThreadPhase> = dctls.iter().map(wait_model_point).collect();
     if prof { eprintln!("triggered {:?}", t0.elapsed()); }
     let f = fields(env);
-    env.log.rec(format!("case {cause} {n} {ndrain}"), format!("ok {f} at={}", at(&eph)));
+    let forms = if kinds.iter().all(|k| *k == WKind::Wait) {
+        String::new()
+    } else {
+        format!(" forms={}", kinds.iter().map(|k| k.name()).collect::<Vec<_>>().join(","))
+    };
+    env.log.rec(format!("case {cause} {n} {ndrain}{forms}"), format!("ok {f} at={}", at(&eph)));
     env.st.bump("cases");
     env.st.bump(&format!("cause_{cause}"));
+    for k in kinds {
+        env.st.bump(&format!("form_{}", k.name()));
+    }
+    // a kill accepted while a GRACEFUL exit is between `Stopping` and `post_stop` turns it into a killed
+    // exit (post_stop skipped, children terminated by handle_signal): C03's subject, not modelled here —
+    // kill_and_wait callers make their send step only once `post_stop` has been reached
+    let graceful = matches!(cause, "stop" | "drain" | "stoppanic");
+    let mut reached_post = !graceful;
+    // the caller has been polled past `wait.created` (its `Notified` is registered)
+    let mut past_created = vec![false; n];
+    let mut sent = vec![false; n];
 
     let mut sig = String::new();
     let mut steps = 0usize;
@@ -382,18 +505,24 @@ fn run_case(env: &mut Env, cause: &str, n: usize, ndrain: usize, collapse_pre: b
         let ex = if matches!(eph, ThreadPhase::AtPoint(_)) { Some(at(&eph)) } else { None };
         // after the exiter has finished every waiter gets at most POST_POLLS more polls: a waiter
         // that is still pending then has lost its wake-up
+        if ex.is_none() || ex == Some("post_stop") {
+            reached_post = true;
+        }
         let ws: Vec<(usize, &'static str)> = wph
             .iter()
             .enumerate()
             .filter(|(i, p)| matches!(p, ThreadPhase::AtPoint(_)) && if ex.is_some() { !stale[*i] } else { post_polls[*i] < POST_POLLS })
+            .filter(|(i, _)| !(kinds[*i].kills() && !sent[*i] && !reached_post))
             .map(|(i, p)| (i, at(p)))
             .collect();
+        let timeable: Vec<usize> =
+            ws.iter().filter(|(i, p)| kinds[*i].timed() && past_created[*i] && *p == "wait.poll").map(|(i, _)| *i).collect();
         let ds: Vec<usize> = dph.iter().enumerate().filter(|(_, p)| matches!(p, ThreadPhase::AtPoint(_))).map(|(i, _)| i).collect();
         let succ_possible = successor.is_none() && ractor::registry::where_is(name.clone()).is_none();
         if ex.is_none() && ws.is_empty() && ds.is_empty() {
             break;
         }
-        match choose(&View { exiter: ex, waiters: &ws, drainers: &ds, succ_possible, steps }) {
+        match choose(&View { exiter: ex, waiters: &ws, drainers: &ds, succ_possible, timeable: &timeable, steps }) {
             Choice::D(i) => {
                 assert!(ds.contains(&i), "schedule picks drainer {i} which is not parked");
                 let p = at(&dph[i]);
@@ -431,11 +560,27 @@ fn run_case(env: &mut Env, cause: &str, n: usize, ndrain: usize, collapse_pre: b
                 if ex.is_none() {
                     post_polls[i] += 1;
                 }
+                sent[i] = true;
+                if p == "wait.created" {
+                    past_created[i] = true;
+                }
                 wctls[i].grant();
                 wph[i] = wait_model_point(&wctls[i]);
-                stale[i] = at(&wph[i]) == "wait.poll";
+                stale[i] = at(&wph[i]) == "wait.poll" && (past_created[i] || kinds[i] == WKind::Join);
                 let f = fields(env);
-                let ret = if at(&wph[i]) == "done" { " ret" } else { "" };
+                let ret = if at(&wph[i]) == "done" {
+                    let r = results.lock().unwrap()[i].unwrap_or("?");
+                    let r = match r {
+                        "r" => "ok",
+                        "e" => "err",
+                        "t" => "timeout",
+                        o => o,
+                    };
+                    env.st.bump(&format!("ret_{}_{r}", kinds[i].name()));
+                    if kinds[i] == WKind::Wait { " ret".to_string() } else { format!(" ret={r}") }
+                } else {
+                    String::new()
+                };
                 env.log.rec(format!("step w{i} {p}"), format!("{f} at={}{ret}", at(&wph[i])));
                 env.st.bump(&format!("pt_{p}"));
                 if !ret.is_empty() {
@@ -454,6 +599,26 @@ fn run_case(env: &mut Env, cause: &str, n: usize, ndrain: usize, collapse_pre: b
                 env.st.bump("abandon");
                 stale.iter_mut().for_each(|x| *x = false);
                 sig.push('x');
+                sig.push_str(&i.to_string());
+                steps += 1;
+            }
+            Choice::Timeout(i) => {
+                assert!(timeable.contains(&i), "the timer of waiter {i} cannot fire here");
+                fire_flags[i].store(true, Ordering::SeqCst);
+                wctls[i].grant();
+                wph[i] = wait_model_point(&wctls[i]);
+                let f = fields(env);
+                let r = match results.lock().unwrap()[i].unwrap_or("?") {
+                    "r" => "ok",
+                    "t" => "timeout",
+                    "e" => "err",
+                    o => o,
+                };
+                env.log.rec(format!("timeout {i}"), format!("{f} at={} ret={r}", at(&wph[i])));
+                env.st.bump("timer_fired");
+                env.st.bump(&format!("ret_{}_{r}", kinds[i].name()));
+                stale.iter_mut().for_each(|x| *x = false);
+                sig.push('t');
                 sig.push_str(&i.to_string());
                 steps += 1;
             }
@@ -532,7 +697,7 @@ impl Dfs {
     }
 }
 
-fn choices(v: &View, abandon_allowed: bool, succ_allowed: bool) -> Vec<Choice> {
+fn choices(v: &View, abandon_allowed: bool, succ_allowed: bool, timeout_allowed: bool) -> Vec<Choice> {
     let mut c = Vec::new();
     if v.exiter.is_some() {
         c.push(Choice::E);
@@ -553,17 +718,29 @@ fn choices(v: &View, abandon_allowed: bool, succ_allowed: bool) -> Vec<Choice> {
             }
         }
     }
+    if timeout_allowed {
+        for i in v.timeable {
+            c.push(Choice::Timeout(*i));
+        }
+    }
     c
 }
 
 fn enumerate(env: &mut Env, name: &str, cause: &str, n: usize, ndrain: usize, collapse: bool, abandon: bool, succ: bool, cap: u64) {
+    enumerate_forms(env, name, cause, &vec![WKind::Wait; n], ndrain, collapse, abandon, succ, cap)
+}
+
+/// every schedule (up to `cap`) of one configuration; timers of timed callers may fire at any
+/// position (each at most once: the call is over afterwards)
+#[allow(clippy::too_many_arguments)]
+fn enumerate_forms(env: &mut Env, name: &str, cause: &str, kinds: &[WKind], ndrain: usize, collapse: bool, abandon: bool, succ: bool, cap: u64) {
     let mut dfs = Dfs::default();
     let mut count = 0u64;
     let complete = loop {
         dfs.begin();
         let mut used = false;
-        run_case(env, cause, n, ndrain, collapse, &mut |v: &View| {
-            let cs = choices(v, abandon && !used, succ);
+        run_case(env, cause, kinds, ndrain, collapse, &mut |v: &View| {
+            let cs = choices(v, abandon && !used, succ, true);
             let k = dfs.choose(cs.len());
             if let Choice::Abandon(_) = cs[k] {
                 used = true;
@@ -582,12 +759,15 @@ fn enumerate(env: &mut Env, name: &str, cause: &str, n: usize, ndrain: usize, co
     env.st.add(&format!("enum_{name}_complete"), complete as u64);
 }
 
-fn random_case(env: &mut Env, rng: &mut Rng, cause: &str, n: usize, ndrain: usize) {
+fn random_case(env: &mut Env, rng: &mut Rng, cause: &str, kinds: &[WKind], ndrain: usize) {
     let mut r = rng.fork();
     let mode = r.below(4); // 0 uniform, 1 exiter-heavy, 2 waiter-heavy, 3 with abandons
     let collapse = r.chance(1, 3);
     let want_succ = r.chance(1, 2);
-    run_case(env, cause, n, ndrain, collapse, &mut |v: &View| {
+    run_case(env, cause, kinds, ndrain, collapse, &mut |v: &View| {
+        if !v.timeable.is_empty() && r.chance(1, 8) {
+            return Choice::Timeout(v.timeable[r.below(v.timeable.len() as u64) as usize]);
+        }
         if mode == 3 && r.chance(1, 10) {
             let c: Vec<usize> = v.waiters.iter().filter(|(_, p)| *p == "wait.poll").map(|(i, _)| *i).collect();
             if !c.is_empty() {
@@ -749,14 +929,20 @@ fn replay_file(env: &mut Env, path: &str) {
     let mut i = 0;
     while i < lines.len() {
         let w: Vec<&str> = lines[i].split_whitespace().collect();
-        let (cause, n, ndrain) = match w.as_slice() {
-            ["case", c, n] => (c.to_string(), n.parse::<usize>().expect("n"), 0),
-            ["case", c, n, d] => (c.to_string(), n.parse::<usize>().expect("n"), d.parse::<usize>().expect("d")),
+        let (cause, n, ndrain, forms) = match w.as_slice() {
+            ["case", c, n] => (c.to_string(), n.parse::<usize>().expect("n"), 0, None),
+            ["case", c, n, d] => (c.to_string(), n.parse::<usize>().expect("n"), d.parse::<usize>().expect("d"), None),
+            ["case", c, n, d, f] => (c.to_string(), n.parse::<usize>().expect("n"), d.parse::<usize>().expect("d"), f.strip_prefix("forms=")),
             _ => {
                 i += 1;
                 continue;
             }
         };
+        let kinds: Vec<WKind> = match forms {
+            Some(f) => f.split(',').map(WKind::parse).collect(),
+            None => vec![WKind::Wait; n],
+        };
+        assert_eq!(kinds.len(), n, "forms= must list one form per waiter");
         let mut sched = Vec::new();
         i += 1;
         while i < lines.len() && !lines[i].starts_with("case ") {
@@ -767,13 +953,14 @@ fn replay_file(env: &mut Env, path: &str) {
                 ["step", t, ..] if t.starts_with('d') => sched.push(Choice::D(t[1..].parse().expect("drainer"))),
                 ["succ"] => sched.push(Choice::Succ),
                 ["abandon", t] => sched.push(Choice::Abandon(t.parse().expect("waiter"))),
+                ["timeout", t] => sched.push(Choice::Timeout(t.parse().expect("waiter"))),
                 _ => {}
             }
             i += 1;
         }
         let mut k = 0;
         let mut extra = 0usize;
-        run_case(env, &cause, n, ndrain, false, &mut |v: &View| {
+        run_case(env, &cause, &kinds, ndrain, false, &mut |v: &View| {
             while k < sched.len() {
                 let c = sched[k];
                 k += 1;
@@ -783,6 +970,7 @@ fn replay_file(env: &mut Env, path: &str) {
                     Choice::Abandon(t) => v.waiters.iter().any(|(e, p)| *e == t && *p == "wait.poll"),
                     Choice::D(t) => v.drainers.contains(&t),
                     Choice::Succ => v.succ_possible,
+                    Choice::Timeout(t) => v.timeable.contains(&t),
                 };
                 if ok {
                     return c;
@@ -799,6 +987,7 @@ fn replay_file(env: &mut Env, path: &str) {
             let _ = v.steps;
             Choice::W(v.waiters[extra % v.waiters.len()].0)
         });
+        let _ = n;
         env.st.bump("replayed_cases");
     }
 }
@@ -837,12 +1026,45 @@ fn main() {
         enumerate(&mut env, "kill_2w_collapsed", "kill", 2, 0, true, false, false, enum_cap);
         enumerate(&mut env, "stop_2w_abandon", "stop", 2, 0, true, true, false, enum_cap);
         enumerate(&mut env, "stoppanic_2w_collapsed", "stoppanic", 2, 0, true, false, false, enum_cap);
+        // every wait form against the exit, the timer of a timed call firing at any position
+        let forms_cap = args.u64("forms-cap", enum_cap);
+        use WKind::*;
+        let form_cfgs: [(&str, &str, &[WKind], bool); 12] = [
+            ("kill_stopT_full", "kill", &[StopWaitT], false),
+            ("stop_killT_full", "stop", &[KillWaitT], false),
+            ("stop_drainT_full", "stop", &[DrainWaitT], false),
+            ("kill_drain_full", "kill", &[DrainWait], false),
+            ("stop_join_full", "stop", &[Join], false),
+            ("stop_waitT_full", "stop", &[WaitT], false),
+            ("panic_stop_full", "panic", &[StopWait], false),
+            ("drain_stopT_wait", "drain", &[StopWaitT, Wait], true),
+            ("kill_join_killT", "kill", &[Join, KillWaitT], true),
+            ("stop_stop_waitT", "stop", &[StopWait, WaitT], true),
+            ("stoppanic_join_drainT", "stoppanic", &[Join, DrainWaitT], true),
+            ("drain_drain_kill", "drain", &[DrainWait, KillWait], true),
+        ];
+        for (name, cause, kinds, collapse) in form_cfgs {
+            enumerate_forms(&mut env, name, cause, kinds, 0, collapse, false, false, forms_cap);
+        }
         let causes = ["stop", "stop", "kill", "drain", "panic", "stoppanic"];
         for _ in 0..cases {
             let cause = *rng.pick(&causes);
             let n = rng.range(0, 4) as usize;
             let ndrain = *rng.pick(&[0usize, 0, 1, 1, 2]);
-            random_case(&mut env, &mut rng, cause, n, ndrain);
+            // half of the random cases: every waiter makes a random call (at most one join handle)
+            let mut kinds = vec![Wait; n];
+            if rng.chance(1, 2) {
+                let mut have_join = false;
+                for k in kinds.iter_mut() {
+                    let mut c = *rng.pick(&WKind::ALL);
+                    if c == Join && have_join {
+                        c = Wait;
+                    }
+                    have_join |= c == Join;
+                    *k = c;
+                }
+            }
+            random_case(&mut env, &mut rng, cause, &kinds, ndrain);
         }
     }
     let stress = args.u64("stress", 0);
